@@ -25,7 +25,13 @@ def rand_script(rng, maxlen, insert=False):
     s = []
     for _ in range(n):
         k = rng.choice(["prog", "profile", "tcols", "log", "pevents", "end"] if insert else KINDS)
-        s.append(Q.P(k, rng.randrange(1, 4)) if k in ("log", "pevents") else Q.P(k))
+        if k in ("log", "pevents"):
+            s.append(Q.P(k, rng.randrange(1, 4)))
+        elif k == "prog":
+            # every shape of Progress packet: read-side counters, write-side only, elapsed time only, all zero
+            s.append(Q.P(k, rng.choice([0, 0, 1, 2, 3])))
+        else:
+            s.append(Q.P(k))
     if insert and rng.random() < 0.8:
         s.insert(rng.randrange(0, len(s) + 1), Q.P("hdr"))
     s.append(Q.P(rng.choice(["eos", "eos", "exc"])))
